@@ -18,6 +18,7 @@ import (
 	"go/token"
 	"go/types"
 	"math/big"
+	"regexp"
 	"strconv"
 	"strings"
 
@@ -850,7 +851,7 @@ func (env *SpecEnv) evalCall(e *ast.CallExpr) (TV, error) {
 		}
 		rng := And(Le(lo.t, T{qn, SInt}), Lt(T{qn, SInt}, hi.t))
 		if id.Name == "forall" {
-			return TV{T{fmt.Sprintf("(forall ((%s Int)) %s)", qn, Imp(rng, body).s), SBool}, boolT}, nil
+			return TV{T{fmt.Sprintf("(forall ((%s Int)) %s)", qn, withPatterns(Imp(rng, body).s, qn)), SBool}, boolT}, nil
 		}
 		return TV{T{fmt.Sprintf("(exists ((%s Int)) %s)", qn, And(rng, body).s), SBool}, boolT}, nil
 	case "forallv", "existsv":
@@ -875,7 +876,11 @@ func (env *SpecEnv) evalCall(e *ast.CallExpr) (TV, error) {
 		if id.Name == "existsv" {
 			q = "exists"
 		}
-		return TV{T{fmt.Sprintf("(%s ((%s %s)) %s)", q, qn, exm.t.sort, body.s), SBool}, boolT}, nil
+		bs := body.s
+		if q == "forall" {
+			bs = withPatterns(bs, qn)
+		}
+		return TV{T{fmt.Sprintf("(%s ((%s %s)) %s)", q, qn, exm.t.sort, bs), SBool}, boolT}, nil
 	case "dom":
 		m, err := env.eval(e.Args[0])
 		if err != nil {
@@ -902,6 +907,27 @@ func (env *SpecEnv) evalCall(e *ast.CallExpr) (TV, error) {
 			return TV{}, err
 		}
 		return TV{Eq(x.t, T{ZeroTime, SInt}), boolT}, nil
+	case "second", "third":
+		call, ok := e.Args[0].(*ast.CallExpr)
+		if !ok {
+			return TV{}, fmt.Errorf("%s(f(...)) expects a call of a pure function", id.Name)
+		}
+		fid, ok := call.Fun.(*ast.Ident)
+		if !ok {
+			return TV{}, fmt.Errorf("%s(f(...)): f must be a package function", id.Name)
+		}
+		rs, sig, err := env.pureApply(fid.Name, call.Args)
+		if err != nil {
+			return TV{}, err
+		}
+		k := 1
+		if id.Name == "third" {
+			k = 2
+		}
+		if k >= len(rs) {
+			return TV{}, fmt.Errorf("%s: function has %d results", id.Name, len(rs))
+		}
+		return TV{rs[k], sig.Results().At(k).Type()}, nil
 	case "now":
 		return TV{ex.ghostGet(env.state(), "now"), nil}, nil
 	case "fresh":
@@ -1006,24 +1032,59 @@ func (env *SpecEnv) evalCall(e *ast.CallExpr) (TV, error) {
 		return ex.applyRecFunc(env, rf, args)
 	}
 	// pure functions of the package under contract
-	if obj := env.pkg().Scope().Lookup(id.Name); obj != nil {
+	rs, sig, err := env.pureApply(id.Name, e.Args)
+	if err != nil {
+		return TV{}, err
+	}
+	return TV{rs[0], sig.Results().At(0).Type()}, nil
+}
+
+func (env *SpecEnv) pureApply(name string, argExprs []ast.Expr) ([]T, *types.Signature, error) {
+	ex := env.ex
+	if obj := env.pkg().Scope().Lookup(name); obj != nil {
 		if f, ok := obj.(*types.Func); ok {
 			sf := ex.P.prog.FuncValue(f)
 			if con := ex.P.contractOf(sf); con != nil && con.Pure {
 				var args []T
-				for _, a := range e.Args {
+				for i, a := range argExprs {
 					v, err := env.eval(a)
 					if err != nil {
-						return TV{}, err
+						return nil, nil, err
+					}
+					if i < sf.Signature.Params().Len() && v.t.sort == "nil" {
+						v.t = ex.vc.zero(sf.Signature.Params().At(i).Type())
 					}
 					args = append(args, v.t)
 				}
 				rs := ex.pureCall(env.st, "fn."+con.Name, sf.Signature, args)
-				return TV{rs[0], sf.Signature.Results().At(0).Type()}, nil
+				return rs, sf.Signature, nil
 			}
 		}
 	}
-	return TV{}, fmt.Errorf("unknown function %s in specification", id.Name)
+	// pure methods of the package: name(recv, args...)
+	if ps := ex.P.specs[env.pkg().Path()]; ps != nil {
+		for _, cn := range ps.Order {
+			con := ps.Contracts[cn]
+			if !con.Pure || !strings.HasSuffix(cn, ")."+name) {
+				continue
+			}
+			sf := ex.P.funcs[env.pkg().Path()+"::"+cn]
+			if sf == nil {
+				continue
+			}
+			var args []T
+			for _, a := range argExprs {
+				v, err := env.eval(a)
+				if err != nil {
+					return nil, nil, err
+				}
+				args = append(args, v.t)
+			}
+			rs := ex.pureCall(env.st, "fn."+con.Name, sf.Signature, args)
+			return rs, sf.Signature, nil
+		}
+	}
+	return nil, nil, fmt.Errorf("unknown function %s in specification", name)
 }
 
 func (env *SpecEnv) isPkgName(name string) bool {
@@ -1151,4 +1212,91 @@ func (env *SpecEnv) lockKey(e ast.Expr) (string, error) {
 		}
 	}
 	return "", fmt.Errorf("held: no field %s", sel.Sel.Name)
+}
+
+// withPatterns annotates a quantifier body with triggers: every innermost (select A q) / (f .. q ..) application
+// whose other arguments do not mention nested quantified variables.
+func withPatterns(body, q string) string {
+	pats := map[string]bool{}
+	var order []string
+	// find all occurrences of q as a whole token and take the smallest enclosing application
+	for i := 0; i+len(q) <= len(body); i++ {
+		if body[i:i+len(q)] != q {
+			continue
+		}
+		if i > 0 && isSymChar(body[i-1]) {
+			continue
+		}
+		if i+len(q) < len(body) && isSymChar(body[i+len(q)]) {
+			continue
+		}
+		// enclosing '(' 
+		depth := 0
+		j := i
+		for ; j >= 0; j-- {
+			if body[j] == ')' {
+				depth++
+			} else if body[j] == '(' {
+				if depth == 0 {
+					break
+				}
+				depth--
+			}
+		}
+		if j < 0 {
+			continue
+		}
+		// matching ')'
+		depth = 0
+		k := j
+		for ; k < len(body); k++ {
+			if body[k] == '(' {
+				depth++
+			} else if body[k] == ')' {
+				depth--
+				if depth == 0 {
+					break
+				}
+			}
+		}
+		app := body[j : k+1]
+		head := strings.Fields(strings.TrimPrefix(app, "("))
+		if len(head) == 0 {
+			continue
+		}
+		switch head[0] {
+		case "select":
+		default:
+			// only uninterpreted applications make good triggers
+			if strings.ContainsAny(head[0][:1], "=<>+-*/") || head[0] == "and" || head[0] == "or" || head[0] == "not" || head[0] == "ite" || head[0] == "=>" || head[0] == "store" || head[0] == "distinct" || head[0] == "forall" || head[0] == "exists" || head[0] == "let" || head[0] == "to_real" {
+				continue
+			}
+		}
+		if strings.Contains(app, "!q") && strings.Count(app, "!q") > strings.Count(app, q) {
+			continue // mentions another bound variable
+		}
+		if badPattern.MatchString(app) {
+			continue
+		}
+		if !pats[app] {
+			pats[app] = true
+			order = append(order, app)
+		}
+	}
+	if len(order) == 0 || len(order) > 6 {
+		return body
+	}
+	var b strings.Builder
+	b.WriteString("(! " + body)
+	for _, p := range order {
+		b.WriteString(" :pattern (" + p + ")")
+	}
+	b.WriteString(")")
+	return b.String()
+}
+
+var badPattern = regexp.MustCompile(`\((ite|and|or|not|=>|=|<|<=|>|>=|\+|-|\*|/|div|mod|distinct|let|forall|exists|to_real|to_int|store) `)
+
+func isSymChar(c byte) bool {
+	return c >= 'a' && c <= 'z' || c >= 'A' && c <= 'Z' || c >= '0' && c <= '9' || c == '_' || c == '.' || c == '!' || c == '$'
 }
